@@ -7,11 +7,11 @@
 
    The full statement (every raising step leaves vis unchanged) is false of the faithful model and of
    hl7apy: C12_atomic_refuted_* (F9: replacement by an element of the other validation level,
-   refused datatype change, value assignment through a lazily created element, partly admissible
+   refused datatype change, value assignment through a lazily created element, partly acceptable
    value, a datatype object of another base datatype assigned as value).  C12_atomic_partial_* prove it for the rejection causes
    where it holds: a refused add (wrong class or name, foreign child, cardinality, level, version),
    an assignment whose child name does not resolve or whose value the parser refuses, an assignment
-   refused at admission time when it would append, an element of another name, a deletion of an
+   refused at acceptance time when it would append, an element of another name, a deletion of an
    absent child. *)
 From Coq Require Import List Bool Arith Lia ZArith NArith Init.Byte.
 From HL7 Require Import Lib.Str Model.Ec Model.Result Model.Ref Model.Tree Model.Leaf Model.Heap Gen.Params.
@@ -127,7 +127,7 @@ Theorem C12_atomic_refuted_value_promotes :
 Proof. vm_compute. reflexivity. Qed.
 Print Assumptions C12_atomic_refuted_value_promotes.
 
-(* F9d  seg.pid_1.value = '2^3' (STRICT): MaxChildLimitReached, the admissible prefix is swapped in *)
+(* F9d  seg.pid_1.value = '2^3' (STRICT): MaxChildLimitReached, the acceptable prefix is swapped in *)
 Theorem C12_atomic_refuted_partial_value :
   before_after [ONewSeg STRICT "PID"; OSetAttr 0 (nm "pid_1") (HText "1")] (OSetValueChain 0 (nm "pid_1") "2^3")
   = (unbs "PID|1", 6, unbs "PID|2").
@@ -135,7 +135,7 @@ Proof. vm_compute. reflexivity. Qed.
 Print Assumptions C12_atomic_refuted_partial_value.
 
 (* F9e  field.value = NM(2) on the populated SI field PID_1: ChildNotValid, and the old value is gone
-   (children[0] is removed by replace_child before the new component is admitted) *)
+   (children[0] is removed by replace_child before the new component is accepted) *)
 Theorem C12_atomic_refuted_value_datatype_object :
   before_after [ONewSeg TOLERANT "PID"; OSetAttr 0 (nm "pid_1") (HText "1"); OGrabList 0 0] (OSetValueDt 1 "NM" "2")
   = (unbs "PID|1", 5, unbs "PID|").
